@@ -39,7 +39,8 @@ EXPLANATION = (
     "loop is control-dependent on an expression reading the bucket's tokens (or capacity and "
     "refill_rate). (L4) no await between bucket lookup and return, none in consume, none "
     "between computing the eviction set and deleting. (L5) only time.monotonic is read. (L6) "
-    "abstract evaluation: consume() false -> (False, '44 ...retry_after...'), true -> (True, None)."
+    "abstract evaluation: consume() false -> (False, '44 ...retry_after...'), true -> (True, None). "
+    "(L7) from_toml passes the configured capacity / refill_rate / retry_after through unchanged (abstract evaluation with the key set to 0) and get_rate_limit_config passes the like-named fields."
 )
 
 MW = "server.middleware"
